@@ -201,6 +201,12 @@ def gen_sparse(seed, idx):
     return traced(kt, params, ops), {'n': n, 'kt': kt, 'params': params, 'keys': len(keys)}
 
 
+# census of the REAL trace against the domain of the cache transparency theorem (Cache_proofs.cache_refines_flat): the flat
+# domain excludes reads that end beyond the end of the file and a shrinking set_len (seeks beyond the end are reported as
+# violations by the oracle below)
+CACHE_DOMAIN = {'events': 0, 'reads_ending_beyond_eof': 0, 'max_bytes_beyond_eof': 0, 'set_len_shrinking': 0, 'files_with_reads_beyond_eof': {}}
+
+
 def trace_oracle(lines, impl_lines):
     """direct oracles on the real trace. returns (problem text, index of the op) or None"""
     end = {'key': 0, 'val': 0, 'htx': 0}
@@ -222,6 +228,13 @@ def trace_oracle(lines, impl_lines):
             f, what = t[0], t[1]
             if f not in end:
                 continue
+            CACHE_DOMAIN['events'] += 1
+            if what == 'r' and len(t) >= 4 and t[2].isdigit() and int(t[2]) + int(t[3]) > end[f]:
+                CACHE_DOMAIN['reads_ending_beyond_eof'] += 1
+                CACHE_DOMAIN['max_bytes_beyond_eof'] = max(CACHE_DOMAIN['max_bytes_beyond_eof'], int(t[2]) + int(t[3]) - end[f])
+                CACHE_DOMAIN['files_with_reads_beyond_eof'][f] = CACHE_DOMAIN['files_with_reads_beyond_eof'].get(f, 0) + 1
+            if what == 'l' and t[2].isdigit() and int(t[2]) < end[f]:
+                CACHE_DOMAIN['set_len_shrinking'] += 1
             if what == 's':
                 if t[2] == '!':
                     continue
@@ -339,6 +352,10 @@ def check_history(ctx, scen, idx, lines, info=None):
     return res
 
 
+def _publish_domain(ctx):
+    ctx.distribution['io_real_trace_vs_cache_theorem_domain'] = {k: (dict(v) if isinstance(v, dict) else v) for k, v in CACHE_DOMAIN.items()}
+
+
 def scen_io(ctx, n_hist=None, n_big=None, n_casc=None, n_sparse=None):
     ctx.rule = ('L_io: every VarFile primitive of every call (seek target / read / write / set_len with position and length), real crate vs the extracted '
                 'byte-level model Io.v, event by event; API results; final files byte for byte; Io files = Layout.render of the record-level model; '
@@ -380,4 +397,5 @@ def scen_io(ctx, n_hist=None, n_big=None, n_casc=None, n_sparse=None):
     bk = ctx.distribution.setdefault('io_buckets', {})
     for x in res:
         bk[str(x['info']['n'])] = bk.get(str(x['info']['n']), 0) + 1
+    _publish_domain(ctx)
     return res
